@@ -78,18 +78,19 @@ type Interf struct {
 
 // TxRecord is a built transaction with its ground truth.
 type TxRecord struct {
-	Step      Step
-	Msg       sdk.ProtoMsg
-	Bytes     []byte
-	Canon     []byte   // canonical encoding of the same signed content
-	SignAddr  string   // hex address of the key that really signed ("" if none)
-	Declared  []string // msg.GetSigners()
-	FeeCoins  sdk.Coins
-	BuildErr  string
-	Resubmit  bool
-	Ref       int
-	Delivered int // number of deliveries with a non-empty diff
-	Encs      []string
+	Step            Step
+	Msg             sdk.ProtoMsg
+	Bytes           []byte
+	Canon           []byte   // canonical encoding of the same signed content
+	SignAddr        string   // hex address of the key that really signed ("" if none)
+	Declared        []string // msg.GetSigners()
+	FeeCoins        sdk.Coins
+	BuildErr        string
+	Resubmit        bool
+	Ref             int
+	Delivered       int   // number of deliveries with a non-empty diff
+	lastEffectiveAt int64 // height of the latest of them
+	Encs            []string
 }
 
 func (s *Sim) key(idx int) sdk.Address {
